@@ -221,3 +221,10 @@ Example c20_ws_inhabited :
   get_ws_host_port pinned (B "tcp://8.8.8.8:7770") (B "http://h:65536") false = WErr.
 Proof. exact ws_inhabited. Qed.
 Print Assumptions c20_ws_inhabited.
+
+(* With the repair of N3 (variant fix_n3) the bracket exception of c20_listen_usable is gone. *)
+Theorem c20_listen_usable_fixed : forall v a l r, fix_n3 v = true ->
+  valid v a = Ok true -> get_listen_address v a l = Ok r ->
+  exists h' p', split_host_port r = Ok (h', p') /\ p' <> [].
+Proof. exact listen_usable_fixed. Qed.
+Print Assumptions c20_listen_usable_fixed.
